@@ -365,7 +365,7 @@ func runPlannedStream(cfg vhlib.Config, sum *vhlib.Summary, rng *vhlib.Rng) {
 func runPlannerCases(cfg vhlib.Config, sum *vhlib.Summary) {
 	type snip struct{ spl, kind string }
 	snips := []snip{{"where v>1", "R"}, {"eval w=v*2", "R"}, {"fields a, v", "R"}, {"bin span=2 v", "R"}, {"fillnull value=0 v", "R"},
-		{"rename a as aa", "R"}, {"head 3", "O"}, {"dedup a", "O"}, {"streamstats count as c", "O"}, {"tail 2", "B"},
+		{"rename a as aa", "R"}, {"head 3", "O"}, {"dedup a", "O"}, {"streamstats count", "O"}, {"tail 2", "B"},
 		{"bin v", "T"}, {"fillnull value=0", "T"}, {"stats count by a", "A"}, {"sort v", "A"}, {"top a", "A"}, {"rare a", "A"}}
 	var chains [][]snip
 	for _, a := range snips {
@@ -410,6 +410,7 @@ func runPlannerCases(cfg vhlib.Config, sum *vhlib.Summary) {
 		}()
 		if len(dps) != len(ch) {
 			sum.Count("planner_chain_skipped")
+			sum.Count(fmt.Sprintf("planner_chain_skipped/%d_dps_for_%d/%s", len(dps), len(ch), strings.Join(kinds, "")))
 			continue
 		}
 		can, idx := processor.CanParallelSearch(dps)
